@@ -195,4 +195,603 @@ theorem areaReduce_range (area A : ℚ) (c : ℤ) (rv sg : Bool) (hA : 0 < A) :
   constructor <;> intro hs <;> subst hs <;> simp only [if_true, if_false, Bool.false_eq_true] <;>
     split_ifs <;> constructor <;> first | linarith | (push Not at *; linarith) | nlinarith
 
+/-! ### AreaReduce modulo `A`: the master lemma, `reverse` flip, traversal flip -/
+
+/-- congruence modulo the ellipsoid area -/
+def CongA (A x y : ℚ) : Prop := ∃ m : ℤ, x = y + m * A
+
+theorem CongA.refl (A x : ℚ) : CongA A x x := ⟨0, by simp⟩
+theorem CongA.symm {A x y : ℚ} (h : CongA A x y) : CongA A y x := by
+  obtain ⟨m, hm⟩ := h; exact ⟨-m, by rw [hm]; push_cast; ring⟩
+theorem CongA.trans {A x y z : ℚ} (h1 : CongA A x y) (h2 : CongA A y z) : CongA A x z := by
+  obtain ⟨m, hm⟩ := h1; obtain ⟨n, hn⟩ := h2; exact ⟨m + n, by rw [hm, hn]; push_cast; ring⟩
+theorem CongA.neg {A x y : ℚ} (h : CongA A x y) : CongA A (-x) (-y) := by
+  obtain ⟨m, hm⟩ := h; exact ⟨-m, by rw [hm]; push_cast; ring⟩
+theorem CongA.add {A x y u v : ℚ} (h1 : CongA A x y) (h2 : CongA A u v) : CongA A (x + u) (y + v) := by
+  obtain ⟨m, hm⟩ := h1; obtain ⟨n, hn⟩ := h2; exact ⟨m + n, by rw [hm, hn]; push_cast; ring⟩
+
+theorem remainderQ_cong (x A : ℚ) : CongA A (remainderQ x A) x := by
+  unfold remainderQ
+  simp only []
+  generalize (if x / A - ↑(x / A).floor < 1 / 2 then (x / A).floor else if x / A - ↑(x / A).floor > 1 / 2 then (x / A).floor + 1 else (if (x / A).floor % 2 = 0 then (x / A).floor else (x / A).floor + 1)) = n
+  exact ⟨-n, by push_cast; ring⟩
+
+/-- the stages of `areaReduce` after the remainder -/
+def adjC (A : ℚ) (c : ℤ) (a : ℚ) : ℚ := if c % 2 = 1 then a + (if a < 0 then 1 else -1) * (A / 2) else a
+def orient (rv : Bool) (a : ℚ) : ℚ := if !rv then -a else a
+def window (A : ℚ) (sg : Bool) (a : ℚ) : ℚ :=
+  if sg then (if a > A / 2 then a - A else if a ≤ -(A / 2) then a + A else a)
+  else (if a ≥ A then a - A else if a < 0 then a + A else a)
+
+theorem areaReduce_stages (area A : ℚ) (c : ℤ) (rv sg : Bool) :
+    areaReduce area A c rv sg = window A sg (orient rv (adjC A c (remainderQ area A))) := rfl
+
+/-- the signed multiplier of `reverse` -/
+def sgn (rv : Bool) : ℚ := if rv then 1 else -1
+
+theorem adjC_cong (A : ℚ) (c : ℤ) (a : ℚ) : CongA A (adjC A c a) (a + c * (A / 2)) := by
+  unfold adjC
+  rcases Int.emod_two_eq_zero_or_one c with hc | hc
+  · obtain ⟨j, hj⟩ : ∃ j, c = 2 * j := ⟨c / 2, by omega⟩
+    rw [if_neg (by omega)]
+    refine ⟨-j, ?_⟩
+    rw [hj]; push_cast; ring
+  · obtain ⟨j, hj⟩ : ∃ j, c = 2 * j + 1 := ⟨c / 2, by omega⟩
+    rw [if_pos hc]
+    split_ifs
+    · refine ⟨-j, ?_⟩
+      rw [hj]; push_cast; ring
+    · refine ⟨-j - 1, ?_⟩
+      rw [hj]; push_cast; ring
+
+theorem orient_eq (rv : Bool) (a : ℚ) : orient rv a = sgn rv * a := by
+  cases rv <;> simp [orient, sgn]
+
+theorem window_cong (A : ℚ) (sg : Bool) (a : ℚ) : CongA A (window A sg a) a := by
+  unfold window
+  split_ifs
+  · exact ⟨-1, by push_cast; ring⟩
+  · exact ⟨1, by push_cast; ring⟩
+  · exact CongA.refl _ _
+  · exact ⟨-1, by push_cast; ring⟩
+  · exact ⟨1, by push_cast; ring⟩
+  · exact CongA.refl _ _
+
+theorem CongA.mul_sgn {A x y : ℚ} (rv : Bool) (h : CongA A x y) : CongA A (sgn rv * x) (sgn rv * y) := by
+  cases rv
+  · simpa [sgn] using h.neg
+  · simpa [sgn] using h
+
+/-- **what `AreaReduce` computes, modulo `A`**: `± (area + crossings·A/2)` -/
+theorem areaReduce_cong (area A : ℚ) (c : ℤ) (rv sg : Bool) :
+    CongA A (areaReduce area A c rv sg) (sgn rv * (area + c * (A / 2))) := by
+  rw [areaReduce_stages, ]
+  refine (window_cong A sg _).trans ?_
+  rw [orient_eq]
+  refine CongA.mul_sgn rv ?_
+  refine (adjC_cong A c _).trans ?_
+  exact (remainderQ_cong area A).add (CongA.refl _ _)
+
+
+theorem cong_eq_of_abs_lt {A x y : ℚ} (hA : 0 < A) (h : CongA A x y) (hlt : |x - y| < A) : x = y := by
+  obtain ⟨m, hm⟩ := h
+  rw [abs_lt] at hlt
+  have h1 : (m:ℚ) * A < A := by linarith
+  have h2 : -A < (m:ℚ) * A := by linarith
+  have h3 : (m:ℚ) < 1 := by by_contra hh; push Not at hh; nlinarith
+  have h4 : (-1:ℚ) < m := by by_contra hh; push Not at hh; nlinarith
+  have h5 : m < 1 := by exact_mod_cast h3
+  have h6 : -1 < m := by exact_mod_cast h4
+  have : m = 0 := by omega
+  subst this; simpa using hm
+
+/-- two results of `AreaReduce` with the same `sign` flag that are congruent modulo `A` are equal
+    (each range is a fundamental domain) -/
+theorem areaReduce_eq_of_cong_results {A : ℚ} (hA : 0 < A) {area area' : ℚ} {c c' : ℤ} {rv rv' sg : Bool}
+    (h : CongA A (areaReduce area' A c' rv' sg) (areaReduce area A c rv sg)) :
+    areaReduce area' A c' rv' sg = areaReduce area A c rv sg := by
+  apply cong_eq_of_abs_lt hA h
+  have r1 := areaReduce_range area A c rv sg hA
+  have r2 := areaReduce_range area' A c' rv' sg hA
+  rw [abs_lt]
+  cases sg
+  · have a := r1.2 rfl; have b := r2.2 rfl; constructor <;> linarith
+  · have a := r1.1 rfl; have b := r2.1 rfl; constructor <;> linarith
+
+/-- **master lemma**: the reduced area depends only on `± (area + crossings·A/2)` modulo `A` -/
+theorem areaReduce_eq_of_cong {A : ℚ} (hA : 0 < A) {area area' : ℚ} {c c' : ℤ} {rv rv' : Bool} (sg : Bool)
+    (h : CongA A (sgn rv' * (area' + c' * (A / 2))) (sgn rv * (area + c * (A / 2)))) :
+    areaReduce area' A c' rv' sg = areaReduce area A c rv sg :=
+  areaReduce_eq_of_cong_results hA
+    (((areaReduce_cong area' A c' rv' sg).trans h).trans (areaReduce_cong area A c rv sg).symm)
+
+theorem sgn_not (rv : Bool) : sgn (!rv) = - sgn rv := by cases rv <;> simp [sgn]
+
+/-- **flipping `reverse`**: signed result `a ↦ −a` (the end point `A/2` of the half-open range maps to itself);
+    unsigned result `a ↦ A − a` for `a ≠ 0`, `0 ↦ 0` -/
+theorem areaReduce_flip (area A : ℚ) (c : ℤ) (rv : Bool) (hA : 0 < A) :
+    (areaReduce area A c (!rv) true =
+        if areaReduce area A c rv true = A / 2 then A / 2 else - areaReduce area A c rv true) ∧
+    (areaReduce area A c (!rv) false =
+        if areaReduce area A c rv false = 0 then 0 else A - areaReduce area A c rv false) := by
+  have key : ∀ sg, CongA A (areaReduce area A c (!rv) sg) (-(areaReduce area A c rv sg)) := by
+    intro sg
+    refine (areaReduce_cong area A c (!rv) sg).trans ?_
+    rw [sgn_not, neg_mul]
+    exact (areaReduce_cong area A c rv sg).neg.symm
+  constructor
+  · have r1 := (areaReduce_range area A c rv true hA).1 rfl
+    have r2 := (areaReduce_range area A c (!rv) true hA).1 rfl
+    split_ifs with h
+    · apply cong_eq_of_abs_lt hA
+      · refine (key true).trans ?_
+        rw [h]; exact ⟨-1, by push_cast; ring⟩
+      · rw [abs_lt]; constructor <;> linarith
+    · apply cong_eq_of_abs_lt hA (key true)
+      have : areaReduce area A c rv true < A / 2 := lt_of_le_of_ne r1.2 h
+      rw [abs_lt]; constructor <;> linarith
+  · have r1 := (areaReduce_range area A c rv false hA).2 rfl
+    have r2 := (areaReduce_range area A c (!rv) false hA).2 rfl
+    split_ifs with h
+    · apply cong_eq_of_abs_lt hA
+      · have := key false; rw [h] at this; simpa using this
+      · rw [abs_lt]; constructor <;> linarith
+    · apply cong_eq_of_abs_lt hA
+      · exact (key false).trans ⟨-1, by push_cast; ring⟩
+      · have : 0 < areaReduce area A c rv false := lt_of_le_of_ne r1.1 (Ne.symm h)
+        rw [abs_lt]; constructor <;> linarith
+
+/-- **flipping the traversal order** (raw sum negated, crossing parity kept) is the same as flipping `reverse` -/
+theorem areaReduce_neg_area (area A : ℚ) (c c' : ℤ) (rv sg : Bool) (hA : 0 < A) (hc : c' % 2 = c % 2) :
+    areaReduce (-area) A c' rv sg = areaReduce area A c (!rv) sg := by
+  apply areaReduce_eq_of_cong hA
+  rw [sgn_not]
+  obtain ⟨j, hj⟩ : ∃ j, c' + c = 2 * j := ⟨(c' + c) / 2, by omega⟩
+  have hj' : (c' : ℚ) = 2 * j - c := by
+    have : ((c' + c : ℤ) : ℚ) = ((2 * j : ℤ) : ℚ) := by rw [hj]
+    push_cast at this; linarith
+  refine ⟨if rv then j else -j, ?_⟩
+  rw [hj']; cases rv <;> simp [sgn] <;> ring
+
+theorem Edge.reverse {d n1 n2 : ℚ} {k : ℤ} (e : Edge d n1 n2 k) : Edge (-d) n2 n1 (-k) :=
+  ⟨⟨by linarith [e.hd.2], by linarith [e.hd.1]⟩, e.hn2, e.hn1, by have := e.hk; push_cast; linarith⟩
+
+/-- the crossing count of an edge traversed backwards is the negative -/
+theorem transitQ_antisymm {d n1 n2 : ℚ} {k : ℤ} (e : Edge d n1 n2 k) :
+    transitQ (-d) n2 n1 = - transitQ d n1 n2 := by
+  rw [transit_eq_floor e, transit_eq_floor e.reverse]
+  have h1 : ⌊(n1 + d) / 360⌋ = ⌊n2 / 360⌋ + k := by
+    rw [e.hk, show (n2 + 360 * (k:ℚ)) / 360 = n2 / 360 + (k:ℚ) by ring, Int.floor_add_intCast]
+  have h2 : ⌊(n2 + -d) / 360⌋ = ⌊n1 / 360⌋ + (-k) := by
+    rw [e.reverse.hk, show (n1 + 360 * ((-k : ℤ):ℚ)) / 360 = n1 / 360 + ((-k : ℤ):ℚ) by ring, Int.floor_add_intCast]
+  rw [h1, h2]; ring
+
+/-! ### whole runs: `AddPoint* ; Compute` over a vertex list and a backend -/
+
+abbrev Vertex := F64 × F64
+/-- `(s12, S12)` of the inverse problem between two vertices -/
+abbrev Backend := Vertex → Vertex → ℚ × ℚ
+
+def step (B : Backend) (sp : State × Vertex) (q : Vertex) : State × Vertex :=
+  (addPoint sp.1 q.2 (B sp.2 q).1 (B sp.2 q).2, q)
+
+/-- `Clear(); AddPoint(v₀); …; AddPoint(vₙ₋₁); Compute(reverse, sign)` for a polygon (not polyline) -/
+def polygon (B : Backend) (A : ℚ) (rv sg : Bool) : List Vertex → Result
+  | [] => compute (init false) A rv sg 0 0
+  | v :: r =>
+    let sp := r.foldl (step B) (addPoint (init false) v.2 0 0, v)
+    compute sp.1 A rv sg (B sp.2 v).1 (B sp.2 v).2
+
+/-- sum of `f` over the consecutive pairs of the path `p, r₀, r₁, …` -/
+def path {α : Type} [AddCommMonoid α] (f : Vertex → Vertex → α) : Vertex → List Vertex → α
+  | _, [] => 0
+  | p, q :: r => f p q + path f q r
+
+/-- cyclic sum of `f` over the edges of the closed polygon -/
+def cyc {α : Type} [AddCommMonoid α] (f : Vertex → Vertex → α) : List Vertex → α
+  | [] => 0
+  | p :: r => path f p (r ++ [p])
+
+theorem path_append {α : Type} [AddCommMonoid α] (f : Vertex → Vertex → α) (p q : Vertex) (l m : List Vertex) :
+    path f p (l ++ q :: m) = path f p (l ++ [q]) + path f q m := by
+  induction l generalizing p with
+  | nil => simp [path]
+  | cons a l ih => simp only [List.cons_append, path, ih, add_assoc]
+
+theorem cyc_rotate_one {α : Type} [AddCommMonoid α] (f : Vertex → Vertex → α) (vs : List Vertex) :
+    cyc f (vs.rotate 1) = cyc f vs := by
+  match vs with
+  | [] => simp
+  | [p] => simp
+  | p :: q :: r =>
+    have : (p :: q :: r).rotate 1 = q :: (r ++ [p]) := by simp [List.rotate_cons_succ]
+    rw [this]
+    simp only [cyc, path, List.cons_append]
+    rw [show r ++ [p] ++ [q] = r ++ p :: [q] by simp, path_append]
+    simp only [path, add_zero]
+    exact add_comm _ _
+
+theorem cyc_rotate {α : Type} [AddCommMonoid α] (f : Vertex → Vertex → α) (vs : List Vertex) (n : ℕ) :
+    cyc f (vs.rotate n) = cyc f vs := by
+  induction n with
+  | zero => simp
+  | succ n ih => rw [← List.rotate_rotate, cyc_rotate_one, ih]
+
+def fS (B : Backend) (p q : Vertex) : ℚ := (B p q).2
+def fs (B : Backend) (p q : Vertex) : ℚ := (B p q).1
+def fT (p q : Vertex) : ℤ := transit p.2 q.2
+
+/-- last vertex of the path `p, r₀, r₁, …` -/
+def lastV : Vertex → List Vertex → Vertex
+  | p, [] => p
+  | _, q :: r => lastV q r
+
+theorem foldl_step (B : Backend) (r : List Vertex) (st : State) (p : Vertex) (hn : st.num ≠ 0) (hp : st.polyline = false)
+    (hl : st.lon1 = p.2) :
+    (r.foldl (step B) (st, p)).1.num = st.num + r.length ∧
+    (r.foldl (step B) (st, p)).1.perimsum = st.perimsum + path (fs B) p r ∧
+    (r.foldl (step B) (st, p)).1.areasum = st.areasum + path (fS B) p r ∧
+    (r.foldl (step B) (st, p)).1.crossings = st.crossings + path fT p r ∧
+    (r.foldl (step B) (st, p)).1.lon0 = st.lon0 ∧
+    (r.foldl (step B) (st, p)).1.lon1 = (lastV p r).2 ∧
+    (r.foldl (step B) (st, p)).1.polyline = false ∧
+    (r.foldl (step B) (st, p)).2 = lastV p r := by
+  induction r generalizing st p with
+  | nil => simp [path, hp, hl, lastV]
+  | cons q r ih =>
+    have hst : (step B (st, p) q) = (addPoint st q.2 (B p q).1 (B p q).2, q) := rfl
+    have ha : addPoint st q.2 (B p q).1 (B p q).2 =
+        { st with num := st.num + 1, perimsum := st.perimsum + (B p q).1, areasum := st.areasum + (B p q).2,
+                  crossings := st.crossings + transit p.2 q.2, lon1 := q.2 } := by
+      unfold addPoint; simp [hn, hp, hl]
+    simp only [List.foldl_cons, hst]
+    obtain ⟨h1, h2, h3, h4, h5, h6, h7, h8⟩ := ih (addPoint st q.2 (B p q).1 (B p q).2) q (by rw [ha]; simp) (by rw [ha]; exact hp)
+      (by rw [ha])
+    refine ⟨?_, ?_, ?_, ?_, ?_, ?_, h7, ?_⟩
+    · rw [h1, ha]; simp; omega
+    · rw [h2, ha]; simp [path, fs]; ring
+    · rw [h3, ha]; simp [path, fS]; ring
+    · rw [h4, ha]; simp [path, fT]; ring
+    · rw [h5, ha]
+    · rw [h6]; rfl
+    · rw [h8]; rfl
+
+
+theorem path_snoc {α : Type} [AddCommMonoid α] (f : Vertex → Vertex → α) (p x : Vertex) (r : List Vertex) :
+    path f p (r ++ [x]) = path f p r + f (lastV p r) x := by
+  induction r generalizing p with
+  | nil => simp [path, lastV]
+  | cons q r ih => simp only [List.cons_append, path, ih, lastV, add_assoc]
+
+/-- **closed form of a whole run**: vertex count, cyclic perimeter, and `AreaReduce` of the cyclic sums -/
+theorem polygon_eq (B : Backend) (A : ℚ) (rv sg : Bool) (vs : List Vertex) (h : 2 ≤ vs.length) :
+    polygon B A rv sg vs =
+      ⟨vs.length, some (cyc (fs B) vs), some (some (areaReduce (cyc (fS B) vs) A (cyc fT vs) rv sg))⟩ := by
+  match vs, h with
+  | v :: r, h =>
+    have h0 : addPoint (init false) v.2 0 0 = { (init false) with num := 1, lon0 := v.2, lon1 := v.2 } := by
+      simp [addPoint, init]
+    obtain ⟨h1, h2, h3, h4, h5, h6, h7, h8⟩ := foldl_step B r (addPoint (init false) v.2 0 0) v (by rw [h0]; simp) (by rw [h0]; rfl) (by rw [h0])
+    have hlen : ¬ ((r.foldl (step B) (addPoint (init false) v.2 0 0, v)).1.num < 2) := by
+      rw [h1, h0]; simp at h ⊢; omega
+    simp only [polygon, compute, hlen, if_false, h7, Bool.false_eq_true]
+    rw [h1, h2, h3, h4, h5, h6, h8, h0]
+    simp only [cyc, path_snoc, init]
+    simp [fs, fS, fT, Nat.add_comm]
+
+/-- **start independence**: the result of `Compute` does not depend on which vertex the polygon was started from -/
+theorem start_independent (B : Backend) (A : ℚ) (rv sg : Bool) (vs : List Vertex) (n : ℕ) :
+    polygon B A rv sg (vs.rotate n) = polygon B A rv sg vs := by
+  by_cases h : 2 ≤ vs.length
+  · rw [polygon_eq B A rv sg vs h, polygon_eq B A rv sg _ (by rw [List.length_rotate]; exact h)]
+    simp only [cyc_rotate, List.length_rotate]
+  · match vs, h with
+    | [], _ => simp
+    | [v], _ => simp
+    | _ :: _ :: _, h => simp at h
+
+/-! ### traversal order, cutting along a diagonal -/
+
+theorem path_add {α : Type} [AddCommMonoid α] (f g : Vertex → Vertex → α) (p : Vertex) (r : List Vertex) :
+    path (fun x y => f x y + g x y) p r = path f p r + path g p r := by
+  induction r generalizing p with
+  | nil => simp [path]
+  | cons q r ih => simp only [path, ih]; exact add_add_add_comm _ _ _ _
+
+theorem cyc_add {α : Type} [AddCommMonoid α] (f g : Vertex → Vertex → α) (vs : List Vertex) :
+    cyc (fun x y => f x y + g x y) vs = cyc f vs + cyc g vs := by
+  cases vs with
+  | nil => simp [cyc]
+  | cons p r => exact path_add f g p _
+
+theorem path_reverse {α : Type} [AddCommMonoid α] (f : Vertex → Vertex → α) (p x : Vertex) (r : List Vertex) :
+    path f x (r.reverse ++ [p]) = path (fun a b => f b a) p (r ++ [x]) := by
+  induction r generalizing p with
+  | nil => simp [path]
+  | cons q r ih =>
+    rw [List.reverse_cons, List.append_assoc, List.singleton_append, path_append, ih q]
+    simp only [path, List.cons_append, add_zero]
+    exact add_comm _ _
+
+/-- the cyclic sum over the reversed vertex list is the cyclic sum of the reversed edges -/
+theorem cyc_reverse {α : Type} [AddCommMonoid α] (f : Vertex → Vertex → α) (vs : List Vertex) :
+    cyc f vs.reverse = cyc (fun a b => f b a) vs := by
+  cases vs with
+  | nil => simp [cyc]
+  | cons p r =>
+    have h : (p :: r).reverse = (p :: r.reverse).rotate 1 := by simp [List.rotate_cons_succ]
+    rw [h, cyc_rotate_one]
+    exact path_reverse f p p r
+
+theorem path_even (g : Vertex → Vertex → ℤ) (p : Vertex) (r : List Vertex)
+    (h : ∀ x ∈ p :: r, ∀ y ∈ p :: r, g x y % 2 = 0) : path g p r % 2 = 0 := by
+  induction r generalizing p with
+  | nil => simp [path]
+  | cons q r ih =>
+    have h1 := h p (by simp) q (by simp)
+    have h2 := ih q (fun x hx y hy => h x (List.mem_cons_of_mem _ hx) y (List.mem_cons_of_mem _ hy))
+    simp only [path]; omega
+
+theorem cyc_even (g : Vertex → Vertex → ℤ) (vs : List Vertex)
+    (h : ∀ x ∈ vs, ∀ y ∈ vs, g x y % 2 = 0) : cyc g vs % 2 = 0 := by
+  cases vs with
+  | nil => simp [cyc]
+  | cons p r =>
+    apply path_even
+    intro x hx y hy
+    apply h <;> simp at * <;> tauto
+
+theorem path_zero {α : Type} [AddCommMonoid α] (p : Vertex) (r : List Vertex) :
+    path (fun _ _ => (0:α)) p r = 0 := by
+  induction r generalizing p with
+  | nil => simp [path]
+  | cons q r ih => simp [path, ih]
+
+/-- **flipping the traversal order** of a polygon: for a backend with symmetric distances and antisymmetric areas,
+    and edges whose two directions have crossing counts of equal parity (true of `transitQ`: `transitQ_antisymm`),
+    the raw sum is negated, the parity kept, and the result is that of the original order with `reverse` flipped -/
+theorem reverse_traversal (B : Backend) (A : ℚ) (hA : 0 < A) (rv sg : Bool) (vs : List Vertex)
+    (hs : ∀ p q, (B q p).1 = (B p q).1) (hS : ∀ p q, (B q p).2 = -(B p q).2)
+    (hT : ∀ p ∈ vs, ∀ q ∈ vs, (transit q.2 p.2 + transit p.2 q.2) % 2 = 0) :
+    cyc (fS B) vs.reverse = - cyc (fS B) vs ∧ cyc fT vs.reverse % 2 = cyc fT vs % 2 ∧
+    polygon B A rv sg vs.reverse = polygon B A (!rv) sg vs := by
+  have e1 : cyc (fs B) vs.reverse = cyc (fs B) vs := by
+    rw [cyc_reverse]; congr 1; funext a b; exact hs a b
+  have e2 : cyc (fS B) vs.reverse = - cyc (fS B) vs := by
+    have : cyc (fS B) vs.reverse + cyc (fS B) vs = 0 := by
+      rw [cyc_reverse, ← cyc_add]
+      have : (fun x y => fS B y x + fS B x y) = fun _ _ => (0:ℚ) := by
+        funext x y; simp [fS, hS x y]
+      rw [this]; cases vs <;> simp [cyc, path_zero]
+    linarith
+  have e3 : cyc fT vs.reverse % 2 = cyc fT vs % 2 := by
+    have : (cyc fT vs.reverse + cyc fT vs) % 2 = 0 := by
+      rw [cyc_reverse, ← cyc_add]
+      exact cyc_even _ vs (fun x hx y hy => hT x hx y hy)
+    omega
+  refine ⟨e2, e3, ?_⟩
+  by_cases h : 2 ≤ vs.length
+  · rw [polygon_eq B A (!rv) sg vs h, polygon_eq B A rv sg _ (by rw [List.length_reverse]; exact h)]
+    rw [e1, e2, areaReduce_neg_area _ A _ _ rv sg hA e3, List.length_reverse]
+  · match vs, h with
+    | [], _ => simp [polygon, compute, init]
+    | [v], _ => simp [polygon, compute, init, addPoint]
+    | _ :: _ :: _, h => simp at h
+
+/-- **cutting along a diagonal**: the polygon `a, l₁, b, l₂` is cut into `a, l₁, b` and `b, l₂, a`.  For a backend
+    with antisymmetric areas (and a diagonal whose two directions have crossing counts of equal parity) the two areas
+    add up to the area of the whole, modulo the area `A` of the ellipsoid -/
+theorem cut_additive (B : Backend) (A : ℚ) (rv sg : Bool) (a b : Vertex) (l1 l2 : List Vertex)
+    (hS : (B b a).2 = -(B a b).2) (hT : (transit b.2 a.2 + transit a.2 b.2) % 2 = 0) :
+    ∃ r1 r2 r : ℚ,
+      (polygon B A rv sg (a :: l1 ++ [b])).area = some (some r1) ∧
+      (polygon B A rv sg (b :: l2 ++ [a])).area = some (some r2) ∧
+      (polygon B A rv sg (a :: l1 ++ b :: l2)).area = some (some r) ∧
+      CongA A (r1 + r2) r := by
+  have hc : ∀ {α : Type} [AddCommMonoid α] (f : Vertex → Vertex → α),
+      cyc f (a :: l1 ++ [b]) + cyc f (b :: l2 ++ [a]) = cyc f (a :: l1 ++ b :: l2) + (f b a + f a b) := by
+    intro α _ f
+    have c1 : cyc f (a :: l1 ++ [b]) = path f a (l1 ++ [b]) + f b a := by
+      show path f a (l1 ++ [b] ++ [a]) = _
+      rw [show l1 ++ [b] ++ [a] = l1 ++ b :: [a] by simp, path_append]; simp [path]
+    have c2 : cyc f (b :: l2 ++ [a]) = path f b (l2 ++ [a]) + f a b := by
+      show path f b (l2 ++ [a] ++ [b]) = _
+      rw [show l2 ++ [a] ++ [b] = l2 ++ a :: [b] by simp, path_append]; simp [path]
+    have c3 : cyc f (a :: l1 ++ b :: l2) = path f a (l1 ++ [b]) + path f b (l2 ++ [a]) := by
+      show path f a (l1 ++ b :: l2 ++ [a]) = _
+      rw [show l1 ++ b :: l2 ++ [a] = l1 ++ b :: (l2 ++ [a]) by simp, path_append]
+    rw [c1, c2, c3]; exact add_add_add_comm _ _ _ _
+  have hS' : fS B b a + fS B a b = 0 := by simp [fS, hS]
+  have g1 := polygon_eq B A rv sg (a :: l1 ++ [b]) (by simp)
+  have g2 := polygon_eq B A rv sg (b :: l2 ++ [a]) (by simp)
+  have g3 := polygon_eq B A rv sg (a :: l1 ++ b :: l2) (by simp; omega)
+  refine ⟨_, _, _, by rw [g1], by rw [g2], by rw [g3], ?_⟩
+  refine ((areaReduce_cong _ A _ rv sg).add (areaReduce_cong _ A _ rv sg)).trans
+    (CongA.trans ?_ (areaReduce_cong _ A _ rv sg).symm)
+  rw [← mul_add]
+  apply CongA.mul_sgn
+  have hq := hc (fS B)
+  have hz := hc fT
+  rw [hS', add_zero] at hq
+  obtain ⟨j, hj⟩ : ∃ j, fT b a + fT a b = 2 * j := ⟨(fT b a + fT a b) / 2, by simp only [fT]; omega⟩
+  rw [hj] at hz
+  refine ⟨j, ?_⟩
+  have hz' : ((cyc fT (a :: l1 ++ [b]) : ℤ) : ℚ) + ((cyc fT (b :: l2 ++ [a]) : ℤ) : ℚ)
+      = ((cyc fT (a :: l1 ++ b :: l2) : ℤ) : ℚ) + 2 * j := by exact_mod_cast hz
+  have hz'' := congrArg (· * (A / 2)) hz'
+  beta_reduce at hz''
+  linarith
+
+/-! ### relabelling longitudes by multiples of 360° -/
+
+/-- one edge under a relabelling of its end longitudes by whole turns: the signed difference moves by `ε` turns
+    (`ε ≠ 0` only at a ±180° tie) and the crossing count by the same `ε` -/
+theorem edge_relabel {d n1 n2 d' n1' n2' : ℚ} {k k' j1 j2 : ℤ} (e : Edge d n1 n2 k) (e' : Edge d' n1' n2' k')
+    (h1 : n1' = n1 + 360 * (j1:ℚ)) (h2 : n2' = n2 + 360 * (j2:ℚ)) :
+    ∃ ε : ℤ, d' = d + 360 * (ε:ℚ) ∧ transitQ d' n1' n2' = transitQ d n1 n2 + ε ∧
+      (ε = 0 ∨ (ε = 1 ∧ d = -180 ∧ d' = 180) ∨ (ε = -1 ∧ d = 180 ∧ d' = -180)) := by
+  refine ⟨j2 - j1 + k' - k, ?_, ?_, ?_⟩
+  · have := e.hk; have := e'.hk; push_cast; linarith
+  · rw [transit_eq_floor e, transit_eq_floor e']
+    have hd : d' = d + 360 * ((j2 - j1 + k' - k : ℤ):ℚ) := by have := e.hk; have := e'.hk; push_cast; linarith
+    have a1 : ⌊(n1' + d') / 360⌋ = ⌊(n1 + d) / 360⌋ + (j1 + (j2 - j1 + k' - k)) := by
+      rw [h1, hd, show (n1 + 360 * (j1:ℚ) + (d + 360 * ((j2 - j1 + k' - k : ℤ):ℚ))) / 360
+        = (n1 + d) / 360 + ((j1 + (j2 - j1 + k' - k) : ℤ):ℚ) by push_cast; ring, Int.floor_add_intCast]
+    have a2 : ⌊n1' / 360⌋ = ⌊n1 / 360⌋ + j1 := by
+      rw [h1, show (n1 + 360 * (j1:ℚ)) / 360 = n1 / 360 + (j1:ℚ) by ring, Int.floor_add_intCast]
+    rw [a1, a2]; ring
+  · have hd : d' - d = 360 * ((j2 - j1 + k' - k : ℤ):ℚ) := by have := e.hk; have := e'.hk; push_cast; linarith
+    generalize j2 - j1 + k' - k = ε at hd
+    have b1 : (ε:ℚ) ≤ 1 := by linarith [e.hd.1, e'.hd.2]
+    have b2 : (-1:ℚ) ≤ ε := by linarith [e.hd.2, e'.hd.1]
+    have c1 : ε ≤ 1 := by exact_mod_cast b1
+    have c2 : -1 ≤ ε := by exact_mod_cast b2
+    have : ε = 0 ∨ ε = 1 ∨ ε = -1 := by omega
+    rcases this with rfl | rfl | rfl
+    · exact Or.inl rfl
+    · push_cast at hd
+      exact Or.inr (Or.inl ⟨rfl, by linarith [e.hd.1, e'.hd.2], by linarith [e.hd.1, e'.hd.2]⟩)
+    · push_cast at hd
+      exact Or.inr (Or.inr ⟨rfl, by linarith [e.hd.2, e'.hd.1], by linarith [e.hd.2, e'.hd.1]⟩)
+
+/-- an edge as `PolygonArea` sees it: end latitudes, signed longitude difference, normalised end longitudes -/
+structure REdge where
+  φ1 : ℚ
+  φ2 : ℚ
+  d : ℚ
+  n1 : ℚ
+  n2 : ℚ
+  k : ℤ
+
+def REdge.ok (e : REdge) : Prop := Edge e.d e.n1 e.n2 e.k
+
+/-- same latitudes, end longitudes moved by whole turns -/
+def Relabel (e e' : REdge) : Prop :=
+  e'.φ1 = e.φ1 ∧ e'.φ2 = e.φ2 ∧ (∃ j : ℤ, e'.n1 = e.n1 + 360 * (j:ℚ)) ∧ (∃ j : ℤ, e'.n2 = e.n2 + 360 * (j:ℚ))
+
+/-- the raw area sum and the crossing count of a list of edges, for a backend `S φ₁ φ₂ lon12` -/
+def rawArea (S : ℚ → ℚ → ℚ → ℚ) (es : List REdge) : ℚ := (es.map fun e => S e.φ1 e.φ2 e.d).sum
+def crossings (es : List REdge) : ℤ := (es.map fun e => transitQ e.d e.n1 e.n2).sum
+
+/-- **relabelling invariance of the pair (ΣS12, crossings)**: for a backend that sees the longitudes only through
+    the signed `lon12` and satisfies the tie contract `S(φ₁, φ₂, +180) − S(φ₁, φ₂, −180) = A/2`, replacing any
+    longitudes by themselves plus whole turns leaves `ΣS12 + crossings·A/2` unchanged modulo `A` … -/
+theorem relabel_cong (S : ℚ → ℚ → ℚ → ℚ) (A : ℚ) (tie : ∀ φ1 φ2, S φ1 φ2 180 - S φ1 φ2 (-180) = A / 2)
+    (es es' : List REdge) (h : List.Forall₂ Relabel es es') (hok : ∀ e ∈ es, e.ok) (hok' : ∀ e ∈ es', e.ok) :
+    CongA A (rawArea S es' + crossings es' * (A / 2)) (rawArea S es + crossings es * (A / 2)) := by
+  induction h with
+  | nil => exact CongA.refl _ _
+  | @cons e e' es es' hr _ ih =>
+    obtain ⟨m, hm⟩ := ih (fun x hx => hok x (List.mem_cons_of_mem _ hx)) (fun x hx => hok' x (List.mem_cons_of_mem _ hx))
+    obtain ⟨p1, p2, ⟨j1, q1⟩, ⟨j2, q2⟩⟩ := hr
+    obtain ⟨ε, hd, ht, hε⟩ := edge_relabel (hok e (by simp)) (hok' e' (by simp)) q1 q2
+    have hSS : S e'.φ1 e'.φ2 e'.d = S e.φ1 e.φ2 e.d + ε * (A / 2) := by
+      rw [p1, p2]
+      rcases hε with rfl | ⟨rfl, a, b⟩ | ⟨rfl, a, b⟩
+      · simp at hd; rw [hd]; simp
+      · rw [a, b]; have := tie e.φ1 e.φ2; push_cast; linarith
+      · rw [a, b]; have := tie e.φ1 e.φ2; push_cast; linarith
+    refine ⟨m + ε, ?_⟩
+    simp only [rawArea, crossings, List.map_cons, List.sum_cons] at hm ⊢
+    rw [hSS, ht]; push_cast; linarith
+
+/-- **`area_relabel_invariant`** … so the reduced area is unchanged (neither `ΣS12` nor the crossing parity is
+    invariant on its own when an edge spans exactly 180°: the theorem is about the pair) -/
+theorem area_relabel_invariant (S : ℚ → ℚ → ℚ → ℚ) (A : ℚ) (hA : 0 < A)
+    (tie : ∀ φ1 φ2, S φ1 φ2 180 - S φ1 φ2 (-180) = A / 2)
+    (es es' : List REdge) (h : List.Forall₂ Relabel es es') (hok : ∀ e ∈ es, e.ok) (hok' : ∀ e ∈ es', e.ok)
+    (rv sg : Bool) :
+    areaReduce (rawArea S es') A (crossings es') rv sg = areaReduce (rawArea S es) A (crossings es) rv sg :=
+  areaReduce_eq_of_cong hA sg (CongA.mul_sgn rv (relabel_cong S A tie es es' h hok hok'))
+
+/-- non-vacuity, and the reason the theorem is about the pair: the meridional edge from (0°, 0°) to (10°, 180°)
+    relabelled as ending at −180°: `lon12` flips from +180 to −180, the crossing count from 0 to −1 -/
+example : Relabel ⟨0, 10, 180, 0, 180, 0⟩ ⟨0, 10, -180, 0, -180, 0⟩ ∧
+    REdge.ok ⟨0, 10, 180, 0, 180, 0⟩ ∧ REdge.ok ⟨0, 10, -180, 0, -180, 0⟩ ∧
+    transitQ 180 0 180 = 0 ∧ transitQ (-180) 0 (-180) = -1 := by
+  refine ⟨⟨rfl, rfl, ⟨0, by norm_num⟩, ⟨-1, by norm_num⟩⟩, ⟨by norm_num, by norm_num, by norm_num, by norm_num⟩,
+    ⟨by norm_num, by norm_num, by norm_num, by norm_num⟩, by decide +kernel, by decide +kernel⟩
+
+/-- a backend satisfying the tie contract that is not constant: `S = lon12·A/720 + φ₁φ₂·lon12²…` -/
+example (A : ℚ) : ∀ φ1 φ2 : ℚ, (fun φ1 φ2 d : ℚ => d * (A / 720) + φ1 * φ2 * d ^ 2) φ1 φ2 180
+      - (fun φ1 φ2 d : ℚ => d * (A / 720) + φ1 * φ2 * d ^ 2) φ1 φ2 (-180) = A / 2 := by
+  intro φ1 φ2; ring
+
+def REdge.tup (e : REdge) : ℚ × ℚ × ℚ × ℤ := (e.d, e.n1, e.n2, e.k)
+
+/-- the edges of a closed polygon: each ends (normalised longitude) where the next begins -/
+def Cyclic (es : List REdge) : Prop := es.map (·.n2) = (es.map (·.n1)).rotate 1
+
+/-- around a closed polygon the crossings count the whole turns swept: `360 · Σ transit = Σ lon12` -/
+theorem crossings_swept (es : List REdge) (hc : Cyclic es) (hok : ∀ e ∈ es, e.ok) :
+    360 * (crossings es : ℚ) = (es.map (·.d)).sum := by
+  have hw := transit_winding (es.map REdge.tup)
+    ⟨by intro t ht; obtain ⟨e, he, rfl⟩ := List.mem_map.mp ht; exact hok e he,
+     closed_of_rotate _ (by simpa [List.map_map, Function.comp_def, REdge.tup, Cyclic] using hc)⟩
+  have hcr : crossings es = (es.map (·.k)).sum := by
+    simpa [crossings, List.map_map, Function.comp_def, REdge.tup] using hw
+  have hsum : (es.map (·.n1)).sum + (es.map (·.d)).sum = (es.map (·.n2)).sum + 360 * ((es.map (·.k)).sum : ℤ) := by
+    clear hw hcr hc
+    induction es with
+    | nil => simp
+    | cons e es ih =>
+      have := ih (fun x hx => hok x (List.mem_cons_of_mem _ hx))
+      have hk := (hok e (by simp)).hk
+      simp only [List.map_cons, List.sum_cons]; push_cast at this ⊢; linarith
+  have hn : (es.map (·.n2)).sum = (es.map (·.n1)).sum := by
+    rw [hc]; exact cyclic_sum_rotate _ 1
+  rw [hcr]; linarith
+
+/-- **shift invariance**: two closed polygons with the same latitudes and the same signed longitude differences
+    (e.g. all longitudes shifted by a constant that leaves every `AngDiff` unchanged) have the same reduced area,
+    wherever the prime meridian falls -/
+theorem area_shift_invariant (S : ℚ → ℚ → ℚ → ℚ) (A : ℚ) (es es' : List REdge)
+    (h : List.Forall₂ (fun e e' : REdge => e'.φ1 = e.φ1 ∧ e'.φ2 = e.φ2 ∧ e'.d = e.d) es es')
+    (hc : Cyclic es) (hc' : Cyclic es') (hok : ∀ e ∈ es, e.ok) (hok' : ∀ e ∈ es', e.ok) (rv sg : Bool) :
+    areaReduce (rawArea S es') A (crossings es') rv sg = areaReduce (rawArea S es) A (crossings es) rv sg := by
+  have h1 : rawArea S es' = rawArea S es ∧ (es'.map (·.d)).sum = (es.map (·.d)).sum := by
+    clear hc hc' hok hok'
+    induction h with
+    | nil => exact ⟨rfl, rfl⟩
+    | cons hr _ ih =>
+      obtain ⟨a, b, c⟩ := hr
+      simp only [rawArea, List.map_cons, List.sum_cons] at ih ⊢
+      rw [a, b, c, ih.1, ih.2]; exact ⟨rfl, rfl⟩
+  have h2 : crossings es' = crossings es := by
+    have a := crossings_swept es hc hok
+    have b := crossings_swept es' hc' hok'
+    rw [h1.2] at b
+    have : (crossings es' : ℚ) = crossings es := by linarith
+    exact_mod_cast this
+  rw [h1.1, h2]
+
+/-- non-vacuity: the triangle with longitudes −10, 100, 170 and the same triangle shifted by +30
+    (170 + 30 = 200 is normalised to −160): all `lon12` are unchanged, both are closed chains -/
+example : Cyclic [⟨0, 1, 110, -10, 100, 0⟩, ⟨1, 2, 70, 100, 170, 0⟩, ⟨2, 0, 180, 170, -10, 1⟩] ∧
+    Cyclic [⟨0, 1, 110, 20, 130, 0⟩, ⟨1, 2, 70, 130, -160, 1⟩, ⟨2, 0, 180, -160, 20, 0⟩] ∧
+    (∀ e ∈ [(⟨0, 1, 110, -10, 100, 0⟩ : REdge), ⟨1, 2, 70, 100, 170, 0⟩, ⟨2, 0, 180, 170, -10, 1⟩], e.ok) ∧
+    (∀ e ∈ [(⟨0, 1, 110, 20, 130, 0⟩ : REdge), ⟨1, 2, 70, 130, -160, 1⟩, ⟨2, 0, 180, -160, 20, 0⟩], e.ok) := by
+  refine ⟨by simp [Cyclic], by simp [Cyclic], ?_, ?_⟩ <;>
+  · intro e he
+    simp only [List.mem_cons, List.not_mem_nil, or_false] at he
+    rcases he with rfl | rfl | rfl <;> exact ⟨by norm_num, by norm_num, by norm_num, by norm_num⟩
+
+/-! ### non-vacuity of the hypotheses of `reverse_traversal` / `cut_additive` -/
+
+/-- a toy backend with symmetric distances and antisymmetric areas -/
+def toyB : Backend := fun p q => ((toRat p.2 - toRat q.2) ^ 2, toRat q.2 - toRat p.2)
+
+def vA : Vertex := (F64.ofInt 0, F64.ofInt (-10))
+def vB : Vertex := (F64.ofInt 40, F64.ofInt 100)
+def vC : Vertex := (F64.ofInt 10, F64.ofInt 170)
+def vD : Vertex := (F64.ofInt (-20), F64.ofInt (-120))
+
+example : (∀ p q, (toyB q p).1 = (toyB p q).1) ∧ (∀ p q, (toyB q p).2 = -(toyB p q).2) :=
+  ⟨fun p q => by simp only [toyB]; ring, fun p q => by simp only [toyB]; ring⟩
+/-- every pair of these vertices (so every edge and every diagonal) has crossing counts of equal parity in its two
+    directions; the polygon goes once round the pole (one net crossing of the prime meridian) -/
+example : ∀ p ∈ [vA, vB, vC, vD], ∀ q ∈ [vA, vB, vC, vD], (transit q.2 p.2 + transit p.2 q.2) % 2 = 0 := by
+  decide +kernel
+example : cyc fT [vA, vB, vC, vD] = 1 := by decide +kernel
+
 end GeoVerif.Props.C08
